@@ -102,7 +102,7 @@ def run_process_test(bindir, cfg_path, timeout=20):
     try:
         # the option takes a (dummy) value in this clap setup
         p = subprocess.run([os.path.join(bindir, "rp"), "-c", cfg_path, "--test", "1"], stdout=subprocess.PIPE, stderr=subprocess.STDOUT, timeout=timeout,
-                           env=dict(os.environ, RUST_LOG="error"))
+                           env=dict(os.environ, RUST_LOG="error"), cwd=os.path.dirname(os.path.abspath(cfg_path)))   # a relative accessLog.path lands there
     except subprocess.TimeoutExpired:
         return "hang", ""
     if p.returncode == 0:
@@ -252,7 +252,7 @@ def run(tier, t0):
     path = os.path.join(wd, "cases.ndjson")
     vlib.write_ndjson(path, cases)
     res = os.path.join(wd, "res.ndjson")
-    rc, _, err = vlib.vh(["config", path], stdout_path=res, timeout=3000)
+    rc, _, err = vlib.vh(["config", path], stdout_path=res, timeout=3000, cwd=wd)
     if rc != 0:
         raise vlib.ToolError("vh config failed rc=%d: %s" % (rc, err))
     out = {}
@@ -282,7 +282,7 @@ def run(tier, t0):
         rp_ = os.path.join(wd, "risky.ndjson")
         vlib.write_ndjson(rp_, [{"id": 0, "post": json.dumps(body)}])
         try:
-            rc1, out1, err1 = vlib.vh(["config", rp_], timeout=60)
+            rc1, out1, err1 = vlib.vh(["config", rp_], timeout=60, cwd=wd)
         except vlib.ToolError:
             rc1, out1, err1 = 0, "", ""      # took longer than a minute: slow, not a crash
         counts[("risky", "rc%d" % rc1)] = counts.get(("risky", "rc%d" % rc1), 0) + 1
@@ -346,7 +346,7 @@ def replay(path):
         wd = vlib.workdir("c18_replay")
         p = os.path.join(wd, "case.ndjson")
         vlib.write_ndjson(p, [rp["case"]])
-        rc, out, err = vlib.vh(["config", p])
+        rc, out, err = vlib.vh(["config", p], cwd=wd)
         print(out)
     else:
         print(json.dumps(rp)[:2000])
